@@ -684,7 +684,7 @@ def run(res):
         if t['name'] != 'z9_is_the_90_percent_quantile':
             extra = [a for a in t['axioms'] if a not in common.ALLOWED_AXIOMS]
             res.oblige('theorem %s uses only the Reals/Coquelicot axioms' % t['name'], not extra, extra)
-    n_curves, n_rel, n_bc, n_phi = (20, 60, 66, 6) if quick else (220, 700, 440, 24)
+    n_curves, n_rel, n_bc, n_phi = (20, 60, 66, 6) if quick else (160, 500, 330, 24)
     stats, seeds, probs = {}, [], []
     # D1: certificates
     cert_ready = common.coq_make(['theories/Common/Cert.vo', 'theories/Woehler/WCert.vo'])[0]
